@@ -43,10 +43,10 @@ LEVEL_TEXT = ("Proof (Coq, no axioms) about the model of dmrs.from_mrs: nodes ar
               "the structure of the result; MRS->DMRS->MRS isomorphism, preservation of top/index and "
               "the re-conversion fixpoint are checked on every generated structure by the oracle.")
 LEVEL_NOTE = ("Partial: the round-trip isomorphism and the re-conversion fixpoint are not proved (oracle only). F8 "
-              "(representative-less scope of a 'well-formed' MRS raises IndexError) and F34 (the RSTR link of a quantifier ends at the first "
-              "representative of the restriction scope, not at the noun it binds) are known findings. F32 (a label sharer of a "
+              "(representative-less scope of a 'well-formed' MRS raises IndexError) is a known finding. F34 (the RSTR link of a quantifier ended "
+              "at the first representative of the restriction scope, not at the noun it binds) and F32 (a label sharer of a "
               "scopal operator whose argument lies below the operator lost its label in the round trip: MOD/EQ links were only "
-              "made between scope representatives) was repaired by a fix: commit; the model follows the repaired code.")
+              "made between scope representatives) were repaired by fix: commits; the model follows the repaired code.")
 TECHNIQUE = "Coq proof (link justification, structure of from_dmrs) + kernel-checked correspondence of both conversions + round-trip oracle"
 DESIGN_REF = "DESIGN.md section 6, C04"
 
@@ -349,11 +349,6 @@ def oracle(c):
 
 
 def known_match(case, failure, known):
-    if isinstance(failure, str) and case.get("k") == "conv" and \
-            failure.startswith("MRS -> DMRS -> MRS is not isomorphic") and _rstr_target_misplaced(case["m"]):
-        for e in known:
-            if e["id"] == "F34":
-                return "F34"
     if isinstance(failure, str) and "IndexError" in failure:
         from harness.props import c07
         if c07._mutual_cycle(case["m"]) or c07._all_members_blocked(case["m"]):
